@@ -45,16 +45,62 @@ pub proof fn lemma_fifo_prune(rb: spec_fn(int) -> int, a: int)
     }
 }
 
-pub open spec fn rta_is_d<F: Fn(Offset) -> Duration>(f: &F, g: spec_fn(int) -> int, max: int) -> bool {
-    forall |a: Offset, r: Duration| a.v() < max && #[trigger] f.ensures((a,), r) ==> r.v() == g(a.v())
+/// The FIFO tail: step offsets below `max`, mapped to durations g, `max()` or zero -- is fold_steps_max(f, g, max)
+pub proof fn lemma_tail_fold_max(offs: Seq<Offset>, f: spec_fn(int) -> int, hz: int, max: int, tw: Seq<Offset>, rs: Seq<Duration>, g: spec_fn(int) -> int, res: Duration)
+    requires
+        offsets_exact(offs, f, hz), 0 <= max <= hz, tw_of(tw, offs, max),
+        rs.len() == tw.len(), forall |i: int| 0 <= i < tw.len() ==> (#[trigger] rs[i]).v() == g(tw[i].v()),
+        rs.len() == 0 ==> res.val == 0,
+        rs.len() > 0 ==> (exists |i: int| 0 <= i < rs.len() && res == #[trigger] rs[i]) && forall |k: int| 0 <= k < rs.len() ==> (#[trigger] rs[k]).val <= res.val,
+    ensures res.v() == fold_steps_max(f, g, max)
+{
+    assert forall |a: int| 0 <= a < max && is_step(f, a) implies off_has(tw, a) by {
+        assert(off_has(offs, a));
+        let i = choose |i: int| 0 <= i < offs.len() && (#[trigger] offs[i]).val == a;
+        if i >= tw.len() {
+            if tw.len() < i { assert(offs[tw.len() as int].val < offs[i].val); }
+            assert(false);
+        }
+        assert(tw[i].val == a);
+    }
+    assert forall |i: int| 0 <= i < tw.len() implies 0 <= (#[trigger] tw[i]).val < max && is_step(f, tw[i].v()) by {
+        assert(tw[i] == offs[i]);
+        assert(off_has(offs, offs[i].v()));
+    }
+    lemma_fold_steps_max_char(f, g, max);
+    let m = fold_steps_max(f, g, max);
+    if rs.len() == 0 {
+        if m != 0 { let x = choose |x: int| 0 <= x < max && is_step(f, x) && #[trigger] g(x) == m; assert(off_has(tw, x)); }
+    } else {
+        let i = choose |i: int| 0 <= i < rs.len() && res == #[trigger] rs[i];
+        assert(g(tw[i].v()) == res.v());
+        assert(res.v() <= m);
+        if m > res.v() {
+            let x = choose |x: int| 0 <= x < max && is_step(f, x) && #[trigger] g(x) == m;
+            assert(off_has(tw, x));
+            let k = choose |k: int| 0 <= k < tw.len() && (#[trigger] tw[k]).val == x;
+            assert(rs[k].v() == g(x));
+        }
+    }
 }
-/// R10 (ASSUMED, bounded-checked by Kani on the real function): the FIFO iterator tail
-///   `demand::step_offsets(&rb).take_while(|A| *A < max_offset).map(rta).max().unwrap_or_else(Duration::zero)`
-#[verifier::external_body]
-pub fn vf_tail_max_below<RB: RequestBound + ?Sized, F: Fn(Offset) -> Duration>(rb: &RB, max_offset: Offset, rta: F) -> (res: Duration)
-    requires rb.wf(), forall |a: Offset| a.v() < max_offset.v() && is_step(rbf_fn(rb), a.v()) ==> #[trigger] rta.requires((a,))
-    ensures forall |g: spec_fn(int) -> int| #[trigger] rta_is_d(&rta, g, max_offset.v()) ==> res.v() == fold_steps_max(rbf_fn(rb), g, max_offset.v())
-{ unimplemented!() }
+pub proof fn lemma_fold_steps_max_char(f: spec_fn(int) -> int, g: spec_fn(int) -> int, a: int)
+    ensures
+        fold_steps_max(f, g, a) >= 0,
+        forall |x: int| 0 <= x < a && is_step(f, x) ==> #[trigger] g(x) <= fold_steps_max(f, g, a),
+        fold_steps_max(f, g, a) == 0 || exists |x: int| 0 <= x < a && is_step(f, x) && #[trigger] g(x) == fold_steps_max(f, g, a),
+    decreases a
+{
+    if a > 0 {
+        lemma_fold_steps_max_char(f, g, a - 1);
+        let p = fold_steps_max(f, g, a - 1);
+        let m = fold_steps_max(f, g, a);
+        assert forall |x: int| 0 <= x < a && is_step(f, x) implies #[trigger] g(x) <= m by { if x < a - 1 { assert(g(x) <= p); } }
+        if m != 0 {
+            if is_step(f, a - 1) && g(a - 1) > p { assert(g(a - 1) == m); }
+            else { assert(m == p); let x = choose |x: int| 0 <= x < a - 1 && is_step(f, x) && #[trigger] g(x) == p; assert(0 <= x < a && is_step(f, x) && g(x) == m); }
+        }
+    }
+}
 
 pub open spec fn pre<A: RequestBound + ?Sized>(rb: &A, limit: int) -> bool {
     &&& 1 <= limit < u64::MAX
@@ -64,11 +110,11 @@ pub open spec fn pre<A: RequestBound + ?Sized>(rb: &A, limit: int) -> bool {
 }
 
 //@item src/fifo/rta.rs :: fn dedicated_uniproc_rta
-pub fn dedicated_uniproc_rta<RBF>(tasks_rbf: &RBF, limit: Duration) -> /*+*/(res: /*-*/fixed_point::SearchResult/*+*/)/*-*/
+pub fn dedicated_uniproc_rta<RBF>(tasks_rbf: &RBF, limit: Duration/*+*/, vf_n: usize/*-*/) -> /*+*/(res: /*-*/fixed_point::SearchResult/*+*/)/*-*/
 where
-    RBF: RequestBound + ?Sized,
+    RBF: /*@R22: RequestBound @*/RequestSteps/*@.*/ + ?Sized,
 //@+
-    requires pre(tasks_rbf, limit.v())
+    requires pre(tasks_rbf, limit.v()), tasks_rbf.rsteps_ok(vf_n as int), tasks_rbf.rsteps_hz(vf_n as int) >= limit.v()
     ensures res_view(res) == fifo_spec(rbf_fn(tasks_rbf), limit.v())
 //@-
 {
@@ -122,14 +168,36 @@ where
     // The case of A=0 is not handled explicitly since
     // `step_offsets()` necessarily yields it.
     let max_offset = Offset::from_time_zero(L);
-    /*@R10: let search_space = demand::step_offsets(&tasks_rbf).take_while(|A| *A < max_offset);
+//@+
+    let ghost hz = tasks_rbf.rsteps_hz(vf_n as int);
+    let ghost tf2 = rbf_fn(&tasks_rbf);
+    proof { assert(L.v() <= limit.v()); }
+//@-
+    let search_space = demand::step_offsets(&tasks_rbf/*+*/, vf_n/*-*/).take_while(|A/*+*/: &Offset/*-*/| /*+*/-> (r: bool) ensures r == (A.v() < max_offset.v()) { /*@probe*/ /*-*/*A < max_offset/*+*/ }, Ghost(|A: Offset| A.v() < max_offset.v())/*-*/);
+//@+
+    let ghost ss = search_space.0@;
+    let ghost mx = max_offset.v();
+    // the stream that take_while consumed (an unnamed temporary of the expression above)
+    let ghost offs: Seq<Offset> = choose |o: Seq<Offset>| #[trigger] offsets_exact(o, tf2, hz) && tw_of(ss, o, mx);
+    let ghost gd = |A: Offset| Duration { val: fifo_at(rb, A.v()) as u64 };
+    proof {
+        assert(exists |o: Seq<Offset>| #[trigger] offsets_exact(o, tf2, hz) && tw_of(ss, o, mx));
+        lemma_offsets_exact_transfer(offs, tf2, rb, hz);
+        assert forall |i: int| 0 <= i < search_space.0@.len() implies #[trigger] rta.requires((search_space.0@[i],)) by {
+            assert(search_space.0@[i] == offs[i]);
+            assert(off_has(offs, offs[i].v()));
+        }
+    }
+//@-
 
     // Apply the offset-specific RTA to each offset in the search space and
     // return the maximum response-time bound.
-    Ok(search_space.map(rta).max().unwrap_or_else(Duration::zero)) @*/let vf_res = vf_tail_max_below(tasks_rbf, max_offset, rta);
+    /*@R21: Ok(search_space.map(rta).max().unwrap_or_else(Duration::zero)) @*/let vf_rs = search_space.map_rel(rta);
+    let ghost rs = vf_rs.0@;
+    let vf_res = match vf_rs.max() { Some(m) => m, None => Duration::zero() };
     proof {
         let g = |x: int| fifo_at(rb, x);
-        assert(rta_is_d(&rta, g, max_offset.v()));
+        lemma_tail_fold_max(offs, rb, hz, mx, ss, rs, g, vf_res);
         lemma_fifo_prune(rb, L.v());
     }
     Ok(vf_res)/*@.*/
